@@ -330,6 +330,9 @@ _IDENTS = ["0", "1", "2", "12", "007", "a", "b", "n1", "e-1", "X_2", "a.b", "tro
 
 _IDENT = st.sampled_from(range(len(_IDENTS)))
 
+# network CSV separators: the three NetworkFormat has a code for (c, s, b); no identifier above contains any of them
+_NET_SEPS = [",", ";", " "]
+
 
 _PERMS = [list(p) for p in itertools.permutations([0, 1, 2, 3])]
 
@@ -601,7 +604,7 @@ def _mk_net(t):
         tgt = src if (hop == 5 or n == 1) else (src + 1 + hop % (n - 1)) % n          # loop edge in about 1 of 6
         out.append({"id": eid, "s": src, "t": tgt, "o": [0, 1, -1][k % 3],
                     "mid": [_dec_vertex(srid, salt, 100 + 10 * j + i, v) for i, v in enumerate(mid)]})
-    return {"srid": srid, "nodes": nodes, "edges": out, "sep": [",", ";"][_ch(salt, 51, sep_i, 2)],
+    return {"srid": srid, "nodes": nodes, "edges": out, "sep": _NET_SEPS[_ch(salt, 51, sep_i, len(_NET_SEPS))],
             "h": _ch(salt, 52, h, 2), "verbose": _ch(salt, 53, verbose, 4) == 3,
             "edits": _mk_net_edits(srid, salt, 300, raw_edits, nodes, out), "same_file": bool(_ch(salt, 54, same_file, 2))}
 
